@@ -19,6 +19,7 @@ TStart == /\ IsEv("start") /\ E.v = Clock /\ Start(E.g, E.op, E.k)
           /\ E.done = (cur'[E.g] = Idle)
           /\ E.done => (LastOp.rv = E.rv /\ LastOp.rok = E.rok)
 TRelease == /\ IsEv("release") /\ Release(E.g) /\ E.done
+            /\ cur[E.g].op = E.op /\ cur[E.g].k = E.k /\ cur[E.g].v = E.v     \* the operation in flight is the one the model has there
             /\ LastOp.rv = E.rv /\ LastOp.rok = E.rok
 ResetP == m' = [k \in Keys |-> None] /\ s' = [k \in Keys |-> FALSE] /\ cur' = [g \in G |-> Idle] /\ acts' = <<>> /\ ops' = <<>>
 TReset == IsEv("hist") /\ ResetP
@@ -27,20 +28,27 @@ TraceNext == TStart \/ TRelease \/ TReset
 TraceSpec == TraceInit /\ [][TraceNext]_<<vars, l>>
 
 \* monitor: m and s are not observable; the history (ops) is rebuilt from the recorded outcomes
+\* Events: "start" (done: returned at once; ~done: inside f, or - blocked - waiting for something another goroutine holds),
+\* "release" (f returned; done unless the operation then blocks), "unblock" (a blocked operation moved on: returned, or reached
+\* f), "stuck" (never returned although nothing else was in flight).  An operation's interval in the history runs from its
+\* start event to the event that reports its return.
 MStep ==
   /\ l <= Len(Trace) /\ l' = l + 1
   /\ IF E.a = "hist" THEN ResetP
      ELSE /\ acts' = Append(acts, [a |-> E.a, g |-> E.g, op |-> E.op, k |-> E.k, v |-> E.v])
           /\ UNCHANGED <<m, s>>
-          /\ IF E.a = "start" /\ ~E.done
-             THEN cur' = [cur EXCEPT ![E.g] = [g |-> E.g, op |-> E.op, k |-> E.k, v |-> E.v, st |-> Clock]] /\ UNCHANGED ops
+          /\ IF ~E.done
+             THEN /\ cur' = [cur EXCEPT ![E.g] = IF E.a = "start" THEN [g |-> E.g, op |-> E.op, k |-> E.k, v |-> E.v, st |-> Clock] ELSE @]
+                  /\ UNCHANGED ops
              ELSE /\ cur' = [cur EXCEPT ![E.g] = Idle]
                   /\ ops' = Append(ops, [g |-> E.g, op |-> E.op, k |-> E.k, v |-> E.v,
-                                         st |-> IF E.a = "release" THEN cur[E.g].st ELSE Clock, en |-> Clock,
+                                         st |-> IF E.a = "start" THEN Clock ELSE cur[E.g].st, en |-> Clock,
                                          rv |-> E.rv, rok |-> E.rok])
 MonitorSpec == TraceInit /\ [][MStep]_<<vars, l>>
 \* every recorded history is linearizable once nothing is pending
 M_C20_Linearizable == (\A g \in G : cur[g] = Idle) => Linearizable(ops)
+\* every operation returns once nothing it could wait for is in flight any more
+M_C20_Returns == \A i \in 1..Len(acts) : acts[i].a # "stuck"
 Accepted == IF TLCGet("stats").diameter = Len(Trace) THEN TRUE
             ELSE Print(<<"REJECTED_AFTER_LINE", TLCGet("stats").diameter, "OF", Len(Trace)>>, FALSE)
 =============================================================================
